@@ -44,6 +44,10 @@ F64_SPECIAL = [0x0, 0x8000000000000000, 0x3ff0000000000000, 0xbff0000000000000, 
                0x3ff0000000000001, 0x3fefffffffffffff, 0x400921fb54442d18, 0x3ca0000000000000]
 
 
+C04_FLOAT_CLASSES = ("wide", "ints", "nearone", "subn")
+C04_VEC_CLASSES = ("cancel", "onehot")
+
+
 class Gen:
     """All random choices come from one SplitMix64 state."""
 
@@ -58,6 +62,8 @@ class Gen:
         return self.r.next() % (1 << w)
 
     def float_val(self, ty, cls):
+        if cls in C04_FLOAT_CLASSES:
+            return self.c04_float(ty, cls)
         if ty == "f32":
             if cls == "special":
                 return self.r.choice(F32_SPECIAL)
@@ -77,8 +83,58 @@ class Gen:
         e = 1023 + self.r.below(81) - 40
         return (self.r.below(2) << 63) | (e << 52) | self.r.below(1 << 52)
 
+    def c04_float(self, ty, cls):
+        """Value classes of C04 (float reductions), all finite and far from overflow:
+        wide    log-uniform exponent over +-40 (f32) / +-300 (f64) binades, random mantissa and sign
+        ints    integers small enough that every product and partial sum of a few hundred of them is exact
+        nearone 1 + k ulp, k in 0..3
+        subn    one in four a subnormal (either sign), the others normal with exponent >= 0"""
+        mb, bias, w = (23, 127, 32) if ty == "f32" else (52, 1023, 64)
+        if cls == "wide":
+            span = 40 if ty == "f32" else 300
+            e = bias + self.r.below(2 * span + 1) - span
+            return (self.r.below(2) << (w - 1)) | (e << mb) | self.r.below(1 << mb)
+        if cls == "ints":
+            m = 100 if ty == "f32" else (1 << 20)
+            v = float(self.r.below(2 * m + 1) - m)
+            return f32bits(v) if ty == "f32" else f64bits(v)
+        if cls == "nearone":
+            return (bias << mb) | self.r.below(4)
+        if cls == "subn":
+            if self.r.below(4) == 0:
+                return (self.r.below(2) << (w - 1)) | self.r.below(1 << mb)
+            e = bias + self.r.below(21)
+            return (self.r.below(2) << (w - 1)) | (e << mb) | self.r.below(1 << mb)
+        raise ValueError(cls)
+
+    def c04_vec(self, ty, n, cls):
+        """Vector-level classes of C04:
+        cancel  pairs (x, -x') with x' within 3 ulp of x, shuffled: the exact sum is tiny against sum |x|
+        onehot  zeros of either sign and a single 1.0 at a seeded index"""
+        mb, bias, w = (23, 127, 32) if ty == "f32" else (52, 1023, 64)
+        if cls == "onehot":
+            out = [self.r.below(2) << (w - 1) for _ in range(n)]
+            if n:
+                out[self.r.below(n)] = bias << mb
+            return out
+        out = []
+        while len(out) + 1 < n:
+            e = bias + self.r.below(41) - 20
+            m = 4 + self.r.below((1 << mb) - 8)
+            sg = self.r.below(2)
+            out.append((sg << (w - 1)) | (e << mb) | m)
+            out.append(((1 - sg) << (w - 1)) | (e << mb) | (m + self.r.below(7) - 3))
+        if len(out) < n:
+            out.append(self.c04_float(ty, "nearone"))
+        for i in range(len(out) - 1, 0, -1):
+            j = self.r.below(i + 1)
+            out[i], out[j] = out[j], out[i]
+        return out
+
     def vec(self, ty, n, cls, nonzero=False):
         w = WIDTH[ty]
+        if cls in C04_VEC_CLASSES and ty[0] == "f":
+            return self.c04_vec(ty, n, cls)
         if cls == "extreme":
             # small values with ONE extreme element at a seeded position (the position sweeps with the seed stream);
             # integers: values straddling the sign bit; floats: +-inf, +-max, +-0
@@ -408,6 +464,30 @@ def spec_agrees(a, s, e, config, n):
     return lines_agree(a, s, e, config, n)
 
 
+def corpus_cases(pid, config, rows):
+    """Minimised failing inputs of fixed / known findings (corpus/<pid>.exp: `<config> <exp case line>` with the row given
+    as ty:Register:Kernel so that it survives table changes); they run first, on every run."""
+    path = os.path.join(lib.VERIF, "corpus", "%s.exp" % pid)
+    byname = {}
+    for idx, e in rows:
+        byname[e["xany"]] = (idx, e, "a")
+        byname[e["xconst"]] = (idx, e, "c")
+    cases, meta = [], []
+    if os.path.exists(path):
+        for ln in open(path):
+            ln = ln.strip()
+            if not ln or ln.startswith("#"):
+                continue
+            cfg, case = ln.split(" ", 1)
+            t = case.split(" ")
+            if cfg != config or t[1] not in byname:
+                continue
+            idx, e, form = byname[t[1]]
+            cases.append(case)
+            meta.append((idx, e, form, int(t[5]), "corpus", t[8]))
+    return cases, meta
+
+
 def run_property(ctx, what, pid, ops=None, tys=None, configs=("stable", "nightly"), classes=("random", "boundary"),
                  lens_fn=None, places=("R",), forms=("a",), const_dims=None, seed_tag=0, regs=None, debug_cfg=False):
     facts = load_facts(ctx)
@@ -419,6 +499,8 @@ def run_property(ctx, what, pid, ops=None, tys=None, configs=("stable", "nightly
             continue
         cases, meta = gen_cases(ctx, rows, lens_fn, classes, places=places, forms=forms, seed_tag=seed_tag,
                                 debug=(config == "debug"), const_dims=const_dims)
+        ccases, cmeta = corpus_cases(pid, config, rows)
+        cases, meta = ccases + cases, cmeta + meta
         ok, log = harness_build.build_cfh(config)
         okd, logd = harness_build.build_driver()
         if not ok or not okd:
